@@ -80,6 +80,64 @@ def check_family(case: dict):
     return {"nt": len(expected) >= 3, "labels": [case["family"]]}
 
 
+# restrictions on the *innermost* element classes (the ones that only occur inside tuples / fields of the path and adjacency tokenizers):
+# name -> (family enumerated, which library class the extra validator is attached to, predicate on the library object, predicate on the parameter dict)
+_INNER = {
+    "no-relative": ("path", "StepTokenizers._StepTokenizer", lambda x: type(x).__name__ != "Relative", lambda p: "relative" not in p["steps"]),
+    "no-distance": ("path", "StepTokenizers._StepTokenizer", lambda x: type(x).__name__ != "Distance", lambda p: "distance" not in p["steps"]),
+    "no-cardinal": ("path", "StepTokenizers._StepTokenizer", lambda x: type(x).__name__ != "Cardinal", lambda p: "cardinal" not in p["steps"]),
+    "only-forks": ("path", "StepSizes._StepSize", lambda x: type(x).__name__ == "Forks", lambda p: p["step_size"] == "forks"),
+    "no-random-permuter": ("adj", "EdgePermuters._EdgePermuter", lambda x: type(x).__name__ != "RandomCoords", lambda a: a["permuter"] != "random"),
+    "no-walls-subset": ("adj", "EdgeSubsets._EdgeSubset", lambda x: not getattr(x, "walls", False), lambda a: a["subset"] != "walls"),
+    "ordinal-1-only": ("adj", "EdgeGroupings._EdgeGrouping", lambda x: getattr(x, "connection_token_ordinal", 1) == 1, lambda a: a["ordinal"] == 1),
+    "none": (None, None, None, None),
+}
+
+
+def check_enum_history(case: dict):
+    """a sequence of enumerations in one process, each under its own validation functions (the documented way to enumerate a sub-family);
+    every one of them - in particular a plain enumeration after restricted ones - must be exactly the product its own functions predict"""
+    import maze_dataset.tokenization as T
+    from maze_dataset.utils import all_instances
+
+    fam = _families()
+    labels = []
+    for step, (family, rest) in enumerate(case["steps"]):
+        cls, members = fam[family]
+        params = C06.PATHS if family == "path" else C06.ADJS
+        vf = _default_vf()
+        keep = [True] * len(members)
+        for name in rest:
+            f_, owner, pred_obj, pred_par = _INNER[name]
+            if f_ != family:
+                # a restriction on a class the enumerated family does not contain: it must not matter
+                if owner is None:
+                    continue
+            else:
+                keep = [k and pred_par(p) for k, p in zip(keep, params)]
+            holder, attr = owner.split(".")
+            klass = getattr(getattr(T, holder), attr)
+            prev = vf.get(klass)
+            vf[klass] = (lambda pr, po: (lambda x: x.is_valid() and po(x) and (pr is None or pr(x))))(prev, pred_obj)
+        got = call("C15:all_instances:history", lambda: list(all_instances(cls, vf)))
+        want = sorted(m.name for m, k in zip(members, keep) if k)
+        gn = sorted(x.name for x in got)
+        require(gn == want, "C15:enumeration-depends-on-earlier-enumerations" if step else "C15:restricted-family:members",
+                f"step {step} ({family} under {rest}): enumerated {len(gn)}, the validation functions admit {len(want)}; "
+                f"only enumerated {sorted(set(gn) - set(want))[:2]}, missing {sorted(set(want) - set(gn))[:2]}")
+        labels.append(f"{family}:{'+'.join(rest) or 'plain'}")
+    return {"nt": len(case["steps"]) >= 2, "labels": labels[:3]}
+
+
+@st.composite
+def _enum_history(draw):
+    names = [k for k in _INNER if k != "none"]
+    steps = draw(st.lists(st.tuples(st.sampled_from(["path", "path", "adj"]), st.lists(st.sampled_from(names), max_size=2, unique=True)).map(list), min_size=2, max_size=4))
+    if draw(st.booleans()):
+        steps.append([steps[0][0], []])  # ... and a plain enumeration at the end
+    return {"steps": steps}
+
+
 def check_restriction(case: dict):
     """enumerate MazeTokenizerModular with extra validation functions accepting only chosen sub-families"""
     from maze_dataset.tokenization import AdjListTokenizers, CoordTokenizers, MazeTokenizerModular, PathTokenizers
@@ -451,6 +509,7 @@ def subs(tier: str):
     out = [
         Sub("element-families", check_family, "exhaustive", cases=_family_cases, exhaustive_flag=True),
         Sub("restricted-enumeration", check_restriction, "hypothesis", strategy=_restriction, examples=10 if q else 400),
+        Sub("enumeration-histories", check_enum_history, "hypothesis", strategy=_enum_history, examples=6 if q else 200),
         Sub("identity", check_identity, "hypothesis", strategy=_identity, examples=100 if q else 6000),
         Sub("validity-rule", check_validity_rule, "exhaustive", cases=_validity_cases, exhaustive_flag=True),
         Sub("legacy-map", check_legacy_map, "exhaustive", cases=_legacy_cases, exhaustive_flag=True),
